@@ -4,6 +4,7 @@
   acknowledged appends, reopen — is carried by the fault suite's ghost-state monitors on the real code)
 -/
 import RaftWal.Proofs.SegmentFaults
+import RaftWal.Proofs.CrashCorollaries
 namespace RaftWal.C10
 open RaftWal
 
@@ -19,5 +20,24 @@ theorem failed_append_invisible (w : Writer) (file : Bytes) (es : List (Nat × B
 theorem failed_forceSeal_rolled_back (w : Writer) (file : Bytes) (f : IoFault) (e : SegErr)
     (h : (w.forceSeal file f).1 = .error e) : (w.forceSeal file f).2.1 = w :=
   forceSeal_fault_rollback w file f e h
+
+/-! ## WAL level (Model/Crash.lean), PARTIAL: a failing call followed by a restart.
+    An I/O error that stops a call after k of its actions leaves on disk exactly what a process crash at that point
+    leaves (the in-memory roll-back is the byte-level theorem above). What is NOT covered by a theorem — and is decided on
+    the real code by the fault suite — is what further successful calls do on top of such a state before the restart
+    (the next append overwrites the rolled-back batch), and clause (b) at the WAL level. -/
+
+/-- **clause (c) and (a) for an immediate restart**: whatever action the call fails at, the log every recovery comes back
+    with is the log before the call or the log after it in full, entries the call does not delete are all there, and the
+    recovered state is one from which every legal call behaves as specified -/
+theorem failed_call_then_restart_partial (d : Crash.Disk) (hq : Crash.QuiescentS d) (op : Crash.Op) (hok : op.ok d)
+    (k : Nat) (d1 d' : Crash.Disk) (hr : Crash.ReachRec (Crash.crashAfter d (Crash.prog d op) k .proc) d1)
+    (ho : Crash.openResult d1 = some d') :
+    Crash.QuiescentS d' ∧
+    (Crash.absLog d' = Crash.absLog d ∨ Crash.absLog d' = Crash.specApply (Crash.absLog d) op) ∧
+    (∀ p ∈ Crash.absLog d, op.removes p.1 = false → p ∈ Crash.absLog d') :=
+  ⟨(Crash.crash_safe_corrected d hq op hok k .proc d1 d' hr ho).1,
+   (Crash.crash_safe_corrected d hq op hok k .proc d1 d' hr ho).2.1,
+   fun p hp hnr => Crash.entries_survive d hq op hok k .proc d1 d' hr ho p hp hnr⟩
 
 end RaftWal.C10
